@@ -222,6 +222,10 @@ def write_evidence(rep: Report, prog, wall: float, seed: int, n_viol: int, known
             "leaf classification table of external APIs (DESIGN.md appendix B) is correct",
             "standard-library semantics relied on by delegation arguments (list, dict, bisect, sorted, csv, json, "
             "multiprocessing queues/locks/events)",
+            "assert statements whose test only reads (no call that could change state) hold: they are dropped before the analysis "
+            "(normalisation N21); logging / warnings calls do not touch program state (N7)",
+            "a field whose name is assigned nowhere in the package outside constructors keeps its value: a local that names it "
+            "reads as the field (N20)",
         ] + rep.notes,
         "wall_s": round(wall, 3),
         "violations": n_viol,
